@@ -183,6 +183,7 @@ def finish(res):
         json.dump({"property": res.pid, "what": v["what"], "failing_input_found": v["found"], "replay": v["replay"],
                    "seed": res.seed, "tier": res.tier}, open(rp, "w"), indent=1, ensure_ascii=False)
         lines.append("VIOLATION property=%s replay=%s%s" % (res.pid, rp, "" if v["found"] else " no-failing-input-found"))
+        lines.append("  what: " + " ".join(str(v["what"]).split())[:400])
     for k in res.known:
         print("KNOWN-FINDING: property=%s %s" % (res.pid, k))
     ev = {"property_id": res.pid, "tier": res.tier, "seed": res.seed, "level": "proof",
@@ -192,7 +193,7 @@ def finish(res):
     evdir = os.path.join(BUILD, "scratch", "evidence_dev") if os.environ.get("VERIF_DEV_SKIP_PROOF") else os.path.join(VERIF, "evidence")
     os.makedirs(evdir, exist_ok=True)
     json.dump(ev, open(os.path.join(evdir, res.pid + ".json"), "w"), indent=1, ensure_ascii=False)
-    for l in lines[:20]:
+    for l in lines[:40]:
         print(l)
     sys.stdout.flush()
     return 1 if res.violations else 0
